@@ -1,6 +1,7 @@
 package props
 
 import (
+	"go/types"
 	"sort"
 	"strings"
 
@@ -153,6 +154,11 @@ func c19JustifiedFor(c *core.Ctx, fn *core.Func, kind, callee string, depth int)
 			continue
 		}
 		w, ok := c19JustifiedFor(c, other, kind, callee, depth+1)
+		if !ok && kind == "blamed" && isFilterDecode(other) {
+			// what a Filter.Decode returns is what asMalformedFilter relabels: the
+			// same compensation (rule C19-R3) covers a relabelling done on its behalf
+			w, ok = c19Justified["pdf.asMalformedFilter|blamed|"+callee]
+		}
 		if !ok {
 			return "", false
 		}
@@ -160,6 +166,18 @@ func c19JustifiedFor(c *core.Ctx, fn *core.Func, kind, callee string, depth int)
 		n++
 	}
 	return why, n > 0
+}
+
+// isFilterDecode: the Decode method of a stream filter of package pdf.
+func isFilterDecode(fn *core.Func) bool {
+	sig := fn.Obj.Type().(*types.Signature)
+	if fn.Obj.Name() != "Decode" || sig.Recv() == nil || core.ShortPkg(fn.Pkg.PkgPath) != "pdf" {
+		return false
+	}
+	if sig.Params().Len() != 3 || sig.Results().Len() != 2 {
+		return false
+	}
+	return core.TypeString(sig.Params().At(1).Type()) == "io.Reader" && core.TypeString(sig.Results().At(0).Type()) == "io.ReadCloser"
 }
 
 // soleCaller returns the only function of fn's package that calls fn, or nil.
